@@ -75,6 +75,7 @@ contract(MGR + '.__init__', props=['C05'], blocks_only=True,
 
 # ---- the lines that select / create zones in source ---------------------------------------------------------------------
 from pyvc.registry import declare_fields  # noqa: E402
+from .c11_data import text_value, text_fails  # noqa: E402,F401
 declare_fields('CreateMemzoneLine', _name='str', _start_addr='int', _end_addr='int')
 ZNAME = 'ite(name_str is None, "GLOBAL", value_of(name_str))'
 # `.memzone NAME` / `.org A "NAME"`: the line belongs to the zone of that name (GLOBAL when none is given); an unknown name
@@ -104,3 +105,16 @@ contract('bespokeasm.assembler.line_object.preprocessor_line.create_memzone:Crea
                   'inside_global(memzone_manager, mapping(memzone_manager._zones)[self._name])',
                   'zones_wf(memzone_manager)'],
          modifies=['memzone_manager._zones[*]'], allocates=True, no_frame_check=True)
+
+# `.org A` / `.org A "NAME"`: the origin is the value of the expression as written, relative to the named zone exactly when a
+# name was written (AddressOrgLine.address, C02, reads these two fields)
+contract('bespokeasm.assembler.line_object.directive_line.address:AddressOrgLine.__init__', name='org-line',
+         props=['C05', 'C02'], params={'memzone_name': 'str?'},
+         may_raise={'SystemExit': 'True', 'SyntaxError': 'True'},
+         ensures=['(self._parsed_memzone_name is None) == (memzone_name is None)',
+                  'implies(memzone_name is not None, value_of(self._parsed_memzone_name) == value_of(memzone_name))',
+                  'self._memzone is mapping(memzone_manager._zones)[ite(memzone_name is None, "GLOBAL", value_of(memzone_name))]',
+                  'self._memzone_manager is memzone_manager',
+                  'forall(lambda s: xval(self._address_expr, s) == text_value(address_expression, s)'
+                  ' and xfails(self._address_expr, s) == text_fails(address_expression, s), types={"s": "LabelScope?"})'],
+         modifies=[], allocates=True, no_frame_check=True)
